@@ -8,9 +8,21 @@ from pathlib import Path
 
 LEAN = Path(__file__).resolve().parent.parent / "lean"
 MODULES = {
-    "C01": ["C01", "C01gen"], "C02": ["C02"], "C03": ["C03"], "C04": ["C04", "GenNumOptv"], "C05": ["C05"], "C06": ["C06core", "C06"],
-    "C07": ["C07", "GenNumBrent"], "C08": ["C08"], "C09": ["C09"], "C10": ["C10", "GenKMk"], "C11": ["C11"], "C12": ["C12"], "C13": ["C13"],
-    "C14": ["C14"], "C15": ["C15", "GenKAC"], "C16": ["C16"], "C17": ["C17", "GenKRS"], "C18": ["C18", "GenKLroo"], "C19": ["C19"], "C20": ["C20", "GenNumTI"],
+    "C01": ["C01", "C01gen"],
+    "C02": ["C02", "GenNumGu", "GenNumPgu"],
+    "C03": ["C03", "GenNumGu", "GenNumPgu"],
+    "C04": ["C04", "GenNumOptv", "GenNumOptvp", "GenNumOptvpCore", "GenNumOptvplc"],
+    "C05": ["C05"],
+    "C06": ["C06core", "C06"],
+    "C07": ["C07", "GenNumBrent", "GenNumGammafit", "GenNumGammastd"],
+    "C08": ["C08", "GenNumGammastd", "GenNumGammastdYxt"],
+    "C09": ["C09", "GenNumGammastdGrp"],
+    "C10": ["C10", "GenKMk", "GenNumMkScore", "GenNumMkVar", "GenNumMkZ", "GenNumMkP", "GenNumMkSens", "GenNumMkTrend"],
+    "C11": ["C11"], "C12": ["C12"], "C13": ["C13"], "C14": ["C14"],
+    "C15": ["C15", "GenKAC", "GenNumACFloat"],
+    "C16": ["C16", "GenKDoMean"],
+    "C17": ["C17", "GenKRS", "GenKMeanGrp"],
+    "C18": ["C18", "GenKLroo"], "C19": ["C19"], "C20": ["C20", "GenNumTI"],
 }
 
 
